@@ -1,5 +1,6 @@
 import SecsModel.Proofs.Txn
 import SecsModel.Gen.RxOrder
+import SecsModel.Gen.DispatchGuard
 /-!
 # C06 — Replies reach exactly their requester; messages delivered once, in order
 
@@ -36,6 +37,14 @@ the queue — so a block queued at any moment is either seen by the running drai
 `pop` step assumes (it is enabled whenever the dispatch queue is non-empty and the thread is idle). -/
 theorem dispatcher_loop_order :
     Gen.RxOrder.queueBlock = ["append", "trigger"] ∧ Gen.RxOrder.dispatcherLoop = ["wait", "clear", "stoptest", "drain"] := by decide
+
+/-- **The receiver and dispatcher threads survive any exception of their callbacks** (except clauses regenerated from the source,
+`Gen.DispatchGuard`): both loops catch `Exception` around the callback and do not re-raise — an undecodable frame or a failing
+`message_received` handler is logged and the loop goes on.  The model relies on it: `rx`, `pop`, `handle` stay enabled for the messages
+that follow whatever the earlier ones were. -/
+theorem loops_survive_callback :
+    Gen.DispatchGuard.receiverCatches = ["Exception"] ∧ Gen.DispatchGuard.dispatcherCatches = ["Exception"]
+      ∧ Gen.DispatchGuard.receiverReraises = false ∧ Gen.DispatchGuard.dispatcherReraises = false := by decide
 
 /-! ## distinct system bytes -/
 
